@@ -1,6 +1,7 @@
 use crate::error::{Xerr, Xresult, Xresult1};
 use crate::fmt_flags::FmtFlags;
 use crate::state::State;
+use std::convert::TryFrom;
 
 pub type Xvec = rpds::Vector<Cell>;
 pub type Xmap = rpds::RedBlackTreeMap<Cell, Cell>;
@@ -386,7 +387,7 @@ impl Cell {
     }
     pub fn to_isize(&self) -> Xresult1<isize> {
         match self.value() {
-            Cell::Int(i) => Ok(*i as isize),
+            Cell::Int(i) => isize::try_from(*i).map_err(|_| Xerr::IntegerOverflow),
             val => Err(cell_type_error(INT_TYPE_NAME, val.clone())),
         }
     }
@@ -395,7 +396,7 @@ impl Cell {
         match self.value() {
             Cell::Int(i) if *i < 0 =>
                 Err(cell_type_error(xeh_xstr!("positive integer"), self.clone())),
-            Cell::Int(i) => Ok(*i as usize),
+            Cell::Int(i) => usize::try_from(*i).map_err(|_| Xerr::IntegerOverflow),
             val => Err(cell_type_error(INT_TYPE_NAME, val.clone())),
         }
     }
